@@ -2201,7 +2201,7 @@ impl CharacterDataMut for XmlText {
             // A count that runs past the end deletes up to the end.
             self.data
                 .borrow_mut()
-                .delete(offset, count.min(length - offset));
+                .delete(offset, count.min(length - offset))?;
             Ok(())
         }
     }
@@ -2363,7 +2363,7 @@ impl CharacterDataMut for XmlComment {
             // A count that runs past the end deletes up to the end.
             self.data
                 .borrow_mut()
-                .delete(offset, count.min(length - offset));
+                .delete(offset, count.min(length - offset))?;
             Ok(())
         }
     }
@@ -2554,7 +2554,7 @@ impl CharacterDataMut for XmlCDataSection {
             // A count that runs past the end deletes up to the end.
             self.data
                 .borrow_mut()
-                .delete(offset, count.min(length - offset));
+                .delete(offset, count.min(length - offset))?;
             Ok(())
         }
     }
